@@ -7,6 +7,7 @@
 import StathamModel.SerJson
 import StathamModel.Lemmas.SerOk
 import StathamModel.Lemmas.ParseNF
+import StathamModel.Lemmas.SerParses
 import StathamModel.Lemmas.CallVerdict
 import StathamModel.Dedupe
 import StathamModel.Tie
@@ -92,6 +93,14 @@ theorem C06_round_trip (cx : PCtx) (s : Schema) (h : nfGood cx s = true) :
     parseE cx (toSchema (parseE cx s)) = parseE cx s :=
   parse_toSchema cx _ (parse_NF cx s h)
 
+/-- **Proved: the second parse does not raise.**  The serializer writes no unsupported keyword, only the seven type names and a
+    title for every class, so `parse_element` on the serialized document returns — for every tree whose object classes have
+    non-empty names (`toSchema_parses`, any tree, no normal-form hypothesis) — and what it returns is the first tree. -/
+theorem C06_second_parse_succeeds (cx : PCtx) (s : Schema) (h : nfGood cx s = true) (hn : namedOK (parseE cx s) = true) :
+    parseElement cx (toSchema (parseE cx s)) = .ok (parseE cx s) := by
+  unfold parseElement
+  rw [toSchema_parses _ hn, C06_round_trip cx s h]
+
 /-- … and the second-round document is the first-round document, as is every later one -/
 theorem C06_fixpoint (cx : PCtx) (s : Schema) (h : nfGood cx s = true) :
     toSchema (parseE cx (toSchema (parseE cx s))) = toSchema (parseE cx s) :=
@@ -126,6 +135,7 @@ def sEx : Schema :=
     [] (some (.bool false)) none [] [] [] [] none
 
 theorem sEx_nfGood : nfGood cx0 sEx = true := by decide +kernel
+theorem sEx_named : namedOK (parseE cx0 sEx) = true := by decide +kernel
 
 /-- finding C06-nothing-with-default at the excluded point: `Nothing()` carrying a default is not in normal form, and the
     round trip indeed loses the default -/
